@@ -76,3 +76,4 @@ Theorem C05_Ell_normal_aligned_refuted : exists a b c n0 n1 n2, n0*n0+n1*n1+n2*n
   v3_cross ROps (n0/a, n1/b, n2/c) (n0,n1,n2) <> (0,0,0).
 Proof. exact (@Ell_normal_aligned_refuted). Qed.
 Print Assumptions C05_Ell_normal_aligned_refuted.
+
